@@ -193,6 +193,12 @@ def replay_monitor(body):
     return True, f"{c.target} satisfies its contract on the recorded input"
 
 
+def _died_result(died):
+    item, code = died
+    return {"target": item[1], "status": "unsupported", "obligations": [], "canary": None, "pre_sat": "unknown", "dropped": [], "wall": 0.0, "fired_calls": [],
+            "why": f"the solver process ended without an answer (exit code {code}; memory cap VERIF_Z3_MEM_MB reached)"}
+
+
 def run_t1(rep: Report, modnames, pid=None, quick=True, monitor_cases=200):
     """Verify every contract in `modnames` that serves property `pid`."""
     reg, cs = load_contracts(modnames)
@@ -216,7 +222,10 @@ def run_t1(rep: Report, modnames, pid=None, quick=True, monitor_cases=200):
             items.append((tuple(modnames), c.key, False))
     results = {}
     for st, r in pmap(_verify_one, items, chunk=1, fresh=True):
-        if st != "ok":
+        if st == "died":
+            # the solver process ended without an answer (memory cap): undecided, the monitor is the fall-back
+            r = _died_result(r)
+        elif st != "ok":
             rep.crash(r)
             continue
         prev_r = results.get(r["target"])
@@ -252,7 +261,7 @@ def run_t1(rep: Report, modnames, pid=None, quick=True, monitor_cases=200):
         if r["status"] == "ok" and monitors.get(t, (0, None))[1] is None and any(o["status"] == "unknown" for o in r["obligations"])
     ]
     for st, r in pmap(_verify_one, again, chunk=1, fresh=True):
-        if st == "ok":
+        if st == "ok" and r["status"] == "ok":
             results[r["target"]] = r
     for a in ENCODING_ASSUMPTIONS:
         if a not in rep.assumptions:
